@@ -44,3 +44,42 @@ func HarnessC07_AvcEnums() {
 	vAssert(true, "enum helper returned")
 	vReach("c07-avc-enums")
 }
+
+// HarnessC07_AvcLinear: decoding a sample of n, 2n, 4n NAL units (length prefix of 1, 2 or 4
+// bytes) or one NAL unit of n, 2n, 4n bytes: the work grows no faster than linearly.
+func HarnessC07_AvcLinear() {
+	lsz := []int{1, 2, 4}[vChoice(3)]
+	many := vChoice(2) == 0
+	cost := func(n int) int {
+		var data []byte
+		put := func(k int) {
+			for i := lsz - 1; i >= 0; i-- {
+				data = append(data, byte(k>>(8*uint(i))))
+			}
+			data = append(data, 0x65)
+			for i := 1; i < k; i++ {
+				data = append(data, byte(i))
+			}
+		}
+		if many {
+			for i := 0; i < n; i++ {
+				put(2)
+			}
+		} else {
+			k := n
+			if lsz == 1 && k > 255 {
+				k = 255
+			}
+			if lsz == 2 && k > 65535 {
+				k = 65535
+			}
+			put(k)
+		}
+		return vMeasure(func() {
+			s := NewAVCSample(uint8(lsz - 1))
+			vAssert(s.UnmarshalBinary(data) == nil, "a well-formed sample decodes")
+		})
+	}
+	vLinear(cost, 48, 2048, 16384, "AVC sample decoding cost grows no faster than linearly with the input length")
+	vReach("c07-avc-linear")
+}
